@@ -1,61 +1,946 @@
+// C11 harness: weighted random sample of address records (db.Wrs).
+//
+//	unit  scripted draws (db.SetRandSourceForVerif), sequences of Wrs.Add on
+//	      generated candidate lists; V4/V6 and the counters after every Add, the
+//	      output of ARecord/AAAARecord at the end
+//	e2e   a generated data set compiled with the real compilers (cdb, rocksdb
+//	      v1 and v2 keys), served in process by dnsserver.FBDNSDB; A/AAAA/ANY/
+//	      MX/NS queries and a referral with max answer 1..8
+//	chi   counts of served addresses over many draws of the real generator
+//	      (single goroutine, concurrent goroutines on the shared locked
+//	      generator, and through the handler): support only
 package main
 
 import (
+	"context"
+	"encoding/json"
+	"flag"
 	"fmt"
 	"math"
+	"math/rand"
+	"net"
+	"os"
+	"path/filepath"
+	"sort"
+	"strings"
+	"sync"
+	"time"
+
+	"github.com/coredns/coredns/plugin/pkg/dnstest"
+	"github.com/facebookincubator/dns/dnsrocks/dnsserver/test"
+	"github.com/miekg/dns"
 
 	"github.com/facebookincubator/dns/dnsrocks/db"
-	"github.com/miekg/dns"
+	"github.com/facebookincubator/dns/dnsrocks/dnsdata/cdb"
+	"github.com/facebookincubator/dns/dnsrocks/dnsdata/rdb"
+	"github.com/facebookincubator/dns/dnsrocks/dnsserver"
+	"github.com/facebookincubator/dns/dnsrocks/dnsserver/stats"
+
+	"verifharness/hlib"
 )
 
-type script struct{ q []uint32 }
+const maxU32 = math.MaxUint32
 
-func (s *script) Int63() int64 {
-	u := s.q[0]
-	s.q = s.q[1:]
+type candJ struct {
+	Q    int    `json:"q"`
+	U    uint32 `json:"u"`
+	W    uint32 `json:"w"`
+	Rank int    `json:"rank"`
+	Zero bool   `json:"zero"`
+}
+
+type stepJ struct {
+	Err bool     `json:"err"`
+	V4  [][2]int `json:"v4"` // (rank, id)
+	C4  uint32   `json:"c4"`
+	V6  [][2]int `json:"v6"`
+	C6  uint32   `json:"c6"`
+}
+
+type groupJ struct {
+	Name  string      `json:"name"`
+	Max   int         `json:"max"`
+	Want4 bool        `json:"want4"`
+	Want6 bool        `json:"want6"`
+	Cands [][3]uint64 `json:"cands"` // (family 1|28, weight, id)
+	Got4  []int       `json:"got4"`
+	Got6  []int       `json:"got6"`
+}
+
+type caseJ struct {
+	Kind  string `json:"kind"`
+	Class string `json:"class"`
+	Max   int    `json:"max"`
+	// unit
+	Cands     []candJ `json:"cands,omitempty"`
+	Steps     []stepJ `json:"steps,omitempty"`
+	Out4      []int   `json:"out4"`
+	Out6      []int   `json:"out6"`
+	Weighted  bool    `json:"weighted"`
+	KeysAgree bool    `json:"keys_agree"`
+	Note      string  `json:"note,omitempty"`
+	// e2e
+	Driver string   `json:"driver,omitempty"`
+	QName  string   `json:"qname,omitempty"`
+	QType  int      `json:"qtype,omitempty"`
+	Mode   string   `json:"mode,omitempty"` // addr | addl
+	Client string   `json:"client,omitempty"`
+	DSeed  uint64   `json:"dseed,omitempty"`
+	Groups []groupJ `json:"groups,omitempty"`
+	Rcode  int      `json:"rcode"`
+	// chi
+	ChiW       []uint32               `json:"chi_w,omitempty"`
+	ChiObs     []int                  `json:"chi_obs,omitempty"`
+	ChiN       int                    `json:"chi_n,omitempty"`
+	ChiSeed    uint64                 `json:"chi_seed,omitempty"`
+	ChiWorkers int                    `json:"chi_workers,omitempty"`
+	ChiVia     string                 `json:"chi_via,omitempty"`
+	Support    map[string]interface{} `json:"support,omitempty"`
+}
+
+// ---------------------------------------------------------------- scripted source
+
+// scriptSrc hands out the scripted Uint32 values (rand.Rand.Uint32 is
+// uint32(Int63() >> 31)); when the script is exhausted (Shuffle in record())
+// it continues with the harness PRNG.
+type scriptSrc struct {
+	q        []uint32
+	fb       *hlib.Rng
+	fallback int
+}
+
+func (s *scriptSrc) Int63() int64 {
+	var u uint32
+	if len(s.q) > 0 {
+		u = s.q[0]
+		s.q = s.q[1:]
+	} else {
+		s.fallback++
+		u = uint32(s.fb.U64() >> 32)
+	}
 	return int64(u) << 31
 }
-func (s *script) Uint64() uint64 { return uint64(s.Int63()) }
-func (s *script) Seed(int64)     {}
+func (s *scriptSrc) Uint64() uint64 { return uint64(s.Int63()) << 1 }
+func (s *scriptSrc) Seed(int64)     {}
 
-var zero32 uint32
+// ---------------------------------------------------------------- unit level
 
-func main() {
-	x := float64(uint32(4294967295)) * float64(1.0/math.MaxUint32)
-	fmt.Printf("x=%.20g x==1:%v bits=%x inv=%x\n", x, x == 1.0, math.Float64bits(x), math.Float64bits(float64(1.0/math.MaxUint32)))
-	fmt.Println(math.Pow(x, math.Inf(1)), math.Pow(x, 1.0/float64(zero32)))
-	y := float64(uint32(4294967294)) * float64(1.0/math.MaxUint32)
-	fmt.Printf("y=%.20g pow=%v\n", y, math.Pow(y, math.Inf(1)))
-	for _, tc := range []struct {
-		u []uint32
-		w []uint32
-		max int
-	}{
-		{[]uint32{4294967295, 4294967294}, []uint32{0, 1}, 1},
-		{[]uint32{4294967295}, []uint32{0}, 1},
-		{[]uint32{4294967295}, []uint32{0}, 3},
-		{[]uint32{0}, []uint32{1}, 1},
-		{[]uint32{0, 5}, []uint32{7, 0}, 2},
-		{[]uint32{4294967295, 4294967295}, []uint32{1, 4294967295}, 2},
-	} {
-		db.SetRandSourceForVerif(&script{q: append(append([]uint32{}, tc.u...), 1, 2, 3, 4, 5, 6)})
-		w := db.Wrs{MaxAnswers: tc.max}
-		for i := range tc.u {
-			row := []byte{0, 1, '=', 0, 0, 0, 5, 0, 0, 0, 0, 0, 0, 0, 0, 0, 0, 0, 0, 10, 0, 0, byte(i + 1)}
-			row[15] = byte(tc.w[i] >> 24)
-			row[16] = byte(tc.w[i] >> 16)
-			row[17] = byte(tc.w[i] >> 8)
-			row[18] = byte(tc.w[i])
-			rr, err := db.ExtractRRFromRow(row, false)
-			if err != nil {
-				panic(err)
-			}
-			if err := w.Add(rr, row); err != nil {
-				panic(err)
+func isAddr(q int) bool { return q == int(dns.TypeA) || q == int(dns.TypeAAAA) }
+
+// the key exactly as db/wrs.go computes it
+func goKey(u, w uint32) float64 {
+	return math.Pow(float64(u)*float64(1.0/math.MaxUint32), 1.0/float64(w))
+}
+
+func mkRow(q int, w uint32, id int) []byte {
+	row := []byte{byte(q >> 8), byte(q), '='}
+	ttl := uint32(100 + id)
+	row = append(row, byte(ttl>>24), byte(ttl>>16), byte(ttl>>8), byte(ttl))
+	row = append(row, 0, 0, 0, 0, 0, 0, 0, 0)
+	switch q {
+	case int(dns.TypeA):
+		row = append(row, byte(w>>24), byte(w>>16), byte(w>>8), byte(w))
+		row = append(row, 10, byte(id>>16), byte(id>>8), byte(id))
+	case int(dns.TypeAAAA):
+		row = append(row, byte(w>>24), byte(w>>16), byte(w>>8), byte(w))
+		row = append(row, 0xfd, 0, 0, 0, 0, 0, 0, 0, 0, 0, 0, 0, 0, byte(id>>16), byte(id>>8), byte(id))
+	default:
+		row = append(row, 1, 'x')
+	}
+	return row
+}
+
+func idOfAddr(ip net.IP) int {
+	if v4 := ip.To4(); v4 != nil && len(ip) == 4 {
+		return int(v4[1])<<16 | int(v4[2])<<8 | int(v4[3])
+	}
+	if len(ip) == 16 {
+		return int(ip[13])<<16 | int(ip[14])<<8 | int(ip[15])
+	}
+	return 999999
+}
+
+func runUnit(rng *hlib.Rng, max int, in []candJ, class string) caseJ {
+	c := caseJ{Kind: "unit", Class: class, Max: max, KeysAgree: true, Out4: []int{}, Out6: []int{}}
+	n := len(in)
+	keys := make([]float64, n)
+	var script []uint32
+	var pos []float64
+	for i, x := range in {
+		if isAddr(x.Q) {
+			keys[i] = goKey(x.U, x.W)
+			script = append(script, x.U)
+			if keys[i] > 0 {
+				pos = append(pos, keys[i])
 			}
 		}
-		fmt.Printf("u=%v w=%v max=%d V4=%v count=%d\n", tc.u, tc.w, tc.max, w.V4, w.V4Count)
-		rrs, err := w.ARecord("x.", dns.ClassINET)
-		fmt.Println("  served:", rrs, err)
 	}
+	sort.Float64s(pos)
+	rankOf := func(k float64) int {
+		if !(k > 0) {
+			if k == 0 {
+				return 0
+			}
+			return 999999 // NaN or negative: never expected
+		}
+		r := 0
+		prev := math.NaN()
+		for _, p := range pos {
+			if p != prev {
+				r++
+				prev = p
+			}
+			if p == k {
+				return r
+			}
+		}
+		return 999999
+	}
+	c.Cands = make([]candJ, n)
+	for i, x := range in {
+		c.Cands[i] = candJ{Q: x.Q, U: x.U, W: x.W, Zero: true}
+		if isAddr(x.Q) {
+			c.Cands[i].Rank = rankOf(keys[i])
+			c.Cands[i].Zero = keys[i] == 0
+		}
+	}
+	src := &scriptSrc{q: script, fb: rng}
+	db.SetRandSourceForVerif(src)
+	w := db.Wrs{MaxAnswers: max}
+	snap := func(items []db.WrsItem) [][2]int {
+		res := [][2]int{}
+		for _, it := range items {
+			id := idOfAddr(it.Addr)
+			if id < 0 || id >= n || it.Key != keys[id] || it.TTL != uint32(100+id) {
+				c.KeysAgree = false
+			}
+			res = append(res, [2]int{rankOf(it.Key), id})
+		}
+		return res
+	}
+	for i, x := range in {
+		row := mkRow(x.Q, x.W, i)
+		rr, err := db.ExtractRRFromRow(append([]byte{}, row...), false)
+		if err != nil {
+			c.Note = "ExtractRRFromRow: " + err.Error()
+			c.KeysAgree = false
+		}
+		err = w.Add(rr, append([]byte{}, row...))
+		c.Steps = append(c.Steps, stepJ{Err: err != nil, V4: snap(w.V4), C4: w.V4Count, V6: snap(w.V6), C6: w.V6Count})
+	}
+	if len(src.q) != 0 || src.fallback != 0 {
+		// every Add of an address record must consume exactly one draw
+		c.Note = fmt.Sprintf("draws: %d scripted left, %d extra", len(src.q), src.fallback)
+		c.KeysAgree = false
+	}
+	c.Weighted = w.WeightedAnswer()
+	if rrs, err := w.ARecord("x.example.", dns.ClassINET); err == nil {
+		for _, r := range rrs {
+			if a, ok := r.(*dns.A); ok && a.Hdr.Ttl == uint32(100+idOfAddr(a.A.To4())) {
+				c.Out4 = append(c.Out4, idOfAddr(a.A.To4()))
+			} else {
+				c.Out4 = append(c.Out4, 999999)
+			}
+		}
+	} else {
+		c.Note = "ARecord: " + err.Error()
+		c.Out4 = append(c.Out4, 999998)
+	}
+	if rrs, err := w.AAAARecord("x.example.", dns.ClassINET); err == nil {
+		for _, r := range rrs {
+			if a, ok := r.(*dns.AAAA); ok && a.Hdr.Ttl == uint32(100+idOfAddr(a.AAAA)) {
+				c.Out6 = append(c.Out6, idOfAddr(a.AAAA))
+			} else {
+				c.Out6 = append(c.Out6, 999999)
+			}
+		}
+	} else {
+		c.Note = "AAAARecord: " + err.Error()
+		c.Out6 = append(c.Out6, 999998)
+	}
+	return c
+}
+
+var weightPool = []uint32{0, 1, 1, 2, 3, 5, 8, 100, 65535, maxU32}
+
+func genUnit(r *hlib.Rng) (int, []candJ, string) {
+	n := r.Intn(13)
+	max := 1 + r.Intn(8)
+	class := "random"
+	mode := r.Pick([]int{5, 2, 2, 2, 1, 1})
+	switch mode {
+	case 1:
+		class = "equalweights"
+	case 2:
+		class = "dupdraws"
+	case 3:
+		class = "max1"
+		max = 1
+	case 4:
+		class = "smallweights" // exact rational order is evaluated for every pair
+	case 5:
+		class = "max0"
+		max = -r.Intn(2)
+	}
+	eqw := weightPool[r.Intn(len(weightPool))]
+	dups := []uint32{1 + uint32(r.U64()%(maxU32-1)), 1 + uint32(r.U64()%(maxU32-1)), 1 + uint32(r.U64()%(maxU32-1))}
+	in := make([]candJ, n)
+	for i := range in {
+		q := int(dns.TypeA)
+		switch r.Pick([]int{12, 7, 1}) {
+		case 1:
+			q = int(dns.TypeAAAA)
+		case 2:
+			q = []int{int(dns.TypeTXT), int(dns.TypeCNAME), int(dns.TypeNS), 0, 65535}[r.Intn(5)]
+		}
+		w := weightPool[r.Intn(len(weightPool))]
+		u := 1 + uint32(r.U64()%(maxU32-1)) // 1 .. 2^32-2: outside the F18 corners
+		switch mode {
+		case 1:
+			w = eqw
+		case 2:
+			u = dups[r.Intn(3)]
+			if r.Chance(1, 2) {
+				w = eqw
+			}
+		case 4:
+			w = uint32(r.Intn(9))
+		}
+		if r.Chance(1, 12) {
+			u = []uint32{1, 2, maxU32 - 1, maxU32 - 2, 1 << 31, 1<<31 - 1}[r.Intn(6)]
+		}
+		in[i] = candJ{Q: q, U: u, W: w}
+	}
+	return max, in, class
+}
+
+// F18 corner draws: 0 and 2^32-1
+func genCorner(r *hlib.Rng) (int, []candJ, string) {
+	n := 1 + r.Intn(5)
+	max := 1 + r.Intn(3)
+	in := make([]candJ, n)
+	for i := range in {
+		q := int(dns.TypeA)
+		if r.Chance(1, 4) {
+			q = int(dns.TypeAAAA)
+		}
+		in[i] = candJ{Q: q, U: []uint32{0, maxU32, maxU32 - 1, 1, uint32(r.U64())}[r.Intn(5)], W: []uint32{0, 0, 1, 2, maxU32}[r.Intn(5)]}
+	}
+	return max, in, "corner"
+}
+
+func emitUnits(a *hlib.Args, e *hlib.Emitter, r *hlib.Rng) {
+	// fixed witnesses of F18 first
+	e.Emit(runUnit(r, 1, []candJ{{Q: 1, U: maxU32, W: 0}, {Q: 1, U: maxU32 - 1, W: 1}}, "corner"))
+	e.Emit(runUnit(r, 1, []candJ{{Q: 1, U: 0, W: 1}}, "corner"))
+	e.Emit(runUnit(r, 3, []candJ{{Q: 1, U: 0, W: 7}, {Q: 1, U: 5, W: 0}, {Q: 28, U: maxU32, W: 0}}, "corner"))
+	// exhaustive small part: all sequences of length <= 3 (quick: over 6 symbols)
+	// / <= 4 (thorough: over 9 symbols) of A candidates (draw, weight), max 1 and 2
+	type sym struct{ u, w uint32 }
+	syms := []sym{{1, 1}, {1 << 31, 1}, {maxU32 - 1, 1}, {1 << 31, 0}, {1 << 31, 3}, {1, 3}}
+	maxLen := 3
+	if a.Tier == "thorough" {
+		maxLen = 4
+		syms = append(syms, sym{maxU32 - 1, 3}, sym{1, 0}, sym{maxU32 - 1, 0})
+	}
+	var rec func(prefix []candJ)
+	rec = func(prefix []candJ) {
+		for _, m := range []int{1, 2} {
+			e.Emit(runUnit(r, m, prefix, "exh"))
+		}
+		if len(prefix) == maxLen {
+			return
+		}
+		for _, x := range syms {
+			rec(append(append([]candJ{}, prefix...), candJ{Q: 1, U: x.u, W: x.w}))
+		}
+	}
+	rec(nil)
+	for i := 0; i < a.N; i++ {
+		if i%25 == 24 {
+			m, in, cl := genCorner(r)
+			e.Emit(runUnit(r, m, in, cl))
+			continue
+		}
+		m, in, cl := genUnit(r)
+		e.Emit(runUnit(r, m, in, cl))
+	}
+}
+
+// ---------------------------------------------------------------- end to end
+
+type drec struct {
+	fam    int // 1 | 28
+	ip     string
+	ttl    uint32
+	loc    int // 0 untagged, 1 default, 2, 3
+	weight uint32
+	id     int
+}
+
+type dataset struct {
+	text    string
+	names   map[string][]drec // fqdn (with trailing dot) -> declared address records
+	qnames  []string          // address-query names
+	mx      []string
+	ns      []string
+	subns   []string
+	dir     string
+	handler map[string]*dnsserver.FBDNSDB
+}
+
+var clients = []struct {
+	ip  string
+	loc int
+}{{"10.1.0.1", 2}, {"10.2.0.1", 3}, {"9.9.9.9", 1}, {"fd00::99", 1}}
+
+func locStr(l int) string {
+	if l == 0 {
+		return ""
+	}
+	return fmt.Sprintf("\\000\\%03o", l)
+}
+
+func genData(seed uint64, tier string) *dataset {
+	r := hlib.NewRng(seed, 1111)
+	d := &dataset{names: map[string][]drec{}, handler: map[string]*dnsserver.FBDNSDB{}}
+	var b strings.Builder
+	b.WriteString("%\\000\\002,10.1.0.0/16,c\\000\n%\\000\\003,10.2.0.0/16,c\\000\n%\\000\\001,0.0.0.0/0,c\\000\n%\\000\\001,::/0,c\\000\n")
+	b.WriteString("Zexample.com,a.ns.example.com,dns.example.com,123,7200,1800,604800,120,120,,\n")
+	seq := 0
+	add := func(name string, fam int, loc int, weight uint32) {
+		seq++
+		ip := fmt.Sprintf("192.0.%d.%d", seq/250, 1+seq%250)
+		if fam == 28 {
+			ip = fmt.Sprintf("2001:db8::%x", seq)
+		}
+		fq := name + "."
+		rec := drec{fam: fam, ip: net.ParseIP(ip).String(), ttl: uint32(1000 + seq), loc: loc, weight: weight, id: seq}
+		d.names[fq] = append(d.names[fq], rec)
+		fmt.Fprintf(&b, "+%s,%s,%d,,%s,%d\n", name, ip, rec.ttl, locStr(loc), weight)
+	}
+	addDup := func(name string, like drec, loc int, weight uint32) {
+		seq++
+		fq := name + "."
+		rec := drec{fam: like.fam, ip: like.ip, ttl: uint32(1000 + seq), loc: loc, weight: weight, id: seq}
+		d.names[fq] = append(d.names[fq], rec)
+		fmt.Fprintf(&b, "+%s,%s,%d,,%s,%d\n", name, like.ip, rec.ttl, locStr(loc), weight)
+	}
+	decl := func(name string) {
+		fmt.Fprintf(&b, "M%s,c\\000\n", name)
+		if _, ok := d.names[name+"."]; !ok {
+			d.names[name+"."] = nil
+		}
+	}
+	// hand-made shapes
+	decl("wrr.example.com")
+	for _, w := range []uint32{1, 2, 3, 4} {
+		add("wrr.example.com", 1, 0, w)
+		add("wrr.example.com", 28, 0, w)
+	}
+	decl("zero.example.com")
+	for i := 0; i < 3; i++ {
+		add("zero.example.com", 1, 0, 0)
+		add("zero.example.com", 28, 0, 0)
+	}
+	decl("mixz.example.com")
+	for _, w := range []uint32{0, 0, 5, 1} {
+		add("mixz.example.com", 1, 0, w)
+	}
+	add("mixz.example.com", 28, 0, 0)
+	add("mixz.example.com", 28, 0, 9)
+	decl("one.example.com")
+	add("one.example.com", 1, 0, 1)
+	decl("big.example.com")
+	for _, w := range []uint32{1, maxU32, 2, 65535, 1, 0, 100, 3, 7, 1, 50, 0} {
+		add("big.example.com", 1, 0, w)
+	}
+	for _, w := range []uint32{maxU32, maxU32, 1, 0, 4, 4, 4, 4, 4, 4} {
+		add("big.example.com", 28, 0, w)
+	}
+	decl("loc.example.com")
+	for _, x := range [][2]int{{2, 1}, {2, 5}, {2, 0}, {3, 1}, {3, 2}, {0, 1}, {0, 3}, {1, 4}} {
+		add("loc.example.com", 1, x[0], uint32(x[1]))
+		add("loc.example.com", 28, x[0], uint32(x[1]))
+	}
+	decl("dupaddr.example.com")
+	add("dupaddr.example.com", 1, 0, 3)
+	first := d.names["dupaddr.example.com."][0]
+	addDup("dupaddr.example.com", first, 2, 5)
+	addDup("dupaddr.example.com", first, 0, 0)
+	add("dupaddr.example.com", 1, 3, 1)
+	decl("only6.example.com")
+	add("only6.example.com", 28, 0, 2)
+	add("only6.example.com", 28, 0, 1)
+	decl("loconly.example.com") // visible to location 2 only
+	add("loconly.example.com", 1, 2, 1)
+	add("loconly.example.com", 1, 2, 0)
+	decl("nx.example.com")
+	d.qnames = []string{"wrr", "zero", "mixz", "one", "big", "loc", "dupaddr", "only6", "loconly", "nx"}
+	nrand := 6
+	if tier == "thorough" {
+		nrand = 40
+	}
+	for i := 0; i < nrand; i++ {
+		name := fmt.Sprintf("r%d.example.com", i)
+		decl(name)
+		for _, fam := range []int{1, 28} {
+			k := r.Intn(8)
+			for j := 0; j < k; j++ {
+				loc := 0
+				if r.Chance(1, 2) {
+					loc = 1 + r.Intn(3)
+				}
+				add(name, fam, loc, weightPool[r.Intn(len(weightPool))])
+			}
+		}
+		d.qnames = append(d.qnames, fmt.Sprintf("r%d", i))
+	}
+	// NS of the zone, MX, a delegation: targets with weighted address sets
+	decl("example.com")
+	for _, ns := range []string{"a.ns.example.com", "b.ns.example.com"} {
+		fmt.Fprintf(&b, "&example.com,,%s,172800,,\n", ns)
+		d.ns = append(d.ns, ns+".")
+	}
+	for _, w := range []uint32{1, 1, 0} {
+		add("a.ns.example.com", 1, 0, w)
+	}
+	add("a.ns.example.com", 28, 0, 2)
+	add("a.ns.example.com", 28, 2, 7)
+	add("b.ns.example.com", 1, 0, 0) // only weight 0 in the A family
+	add("b.ns.example.com", 28, 0, 1)
+	add("b.ns.example.com", 28, 0, 1)
+	add("b.ns.example.com", 28, 0, 1)
+	for i, mx := range []string{"mx1.example.com", "mx2.example.com", "mx3.example.com"} {
+		fmt.Fprintf(&b, "@example.com,,%s,%d,300\n", mx, 10*(i+1))
+		d.mx = append(d.mx, mx+".")
+	}
+	for _, w := range []uint32{5, 1, 0, maxU32} {
+		add("mx1.example.com", 1, 0, w)
+		add("mx1.example.com", 28, 0, w)
+	}
+	add("mx2.example.com", 1, 0, 0)
+	add("mx2.example.com", 1, 0, 0)
+	add("mx3.example.com", 1, 2, 1)
+	add("mx3.example.com", 1, 3, 1)
+	add("mx3.example.com", 1, 3, 1)
+	add("mx3.example.com", 28, 1, 1)
+	decl("www.sub.example.com")
+	delete(d.names, "www.sub.example.com.")
+	for _, ns := range []string{"ns1.sub.example.com", "ns2.sub.example.com"} {
+		fmt.Fprintf(&b, "&sub.example.com,,%s,3600,,\n", ns)
+		d.subns = append(d.subns, ns+".")
+	}
+	for _, w := range []uint32{1, 2, 3, 0} {
+		add("ns1.sub.example.com", 1, 0, w)
+	}
+	add("ns1.sub.example.com", 28, 0, 1)
+	add("ns1.sub.example.com", 28, 3, 1)
+	add("ns2.sub.example.com", 28, 0, 0)
+	d.text = b.String()
+	return d
+}
+
+func (d *dataset) build(scratch string, seed uint64) error {
+	dir, err := os.MkdirTemp(scratch, fmt.Sprintf("c11db-%d-", seed))
+	if err != nil {
+		return err
+	}
+	d.dir = dir
+	in := filepath.Join(dir, "data.in")
+	if err := os.WriteFile(in, []byte(d.text), 0o644); err != nil {
+		return err
+	}
+	t0 := time.Now()
+	if _, err := cdb.CreateCDB(in, filepath.Join(dir, "data.cdb"), nil); err != nil {
+		return fmt.Errorf("cdb: %w", err)
+	}
+	fmt.Fprintf(os.Stderr, "c11 build: cdb %.1fs\n", time.Since(t0).Seconds())
+	for _, v2 := range []bool{false, true} {
+		p := filepath.Join(dir, "rdb1")
+		if v2 {
+			p = filepath.Join(dir, "rdb2")
+		}
+		if err := os.MkdirAll(p, 0o755); err != nil {
+			return err
+		}
+		if _, err := rdb.CompileToSpecificRDBVersion(in, p, rdb.CompilationOptions{UseV2KeySyntax: v2, UseBuilder: true}); err != nil {
+			return fmt.Errorf("rdb v2=%v: %w", v2, err)
+		}
+		fmt.Fprintf(os.Stderr, "c11 build: rdb v2=%v at %.1fs\n", v2, time.Since(t0).Seconds())
+	}
+	for _, drv := range []struct{ name, driver, path string }{
+		{"cdb", "cdb", filepath.Join(dir, "data.cdb")},
+		{"rdb1", "rocksdb", filepath.Join(dir, "rdb1")},
+		{"rdb2", "rocksdb", filepath.Join(dir, "rdb2")},
+	} {
+		h, err := dnsserver.NewFBDNSDBBasic(dnsserver.HandlerConfig{}, dnsserver.DBConfig{Path: drv.path, Driver: drv.driver},
+			dnsserver.CacheConfig{}, &dnsserver.DummyLogger{}, &stats.DummyStats{})
+		if err != nil {
+			return err
+		}
+		if err := h.Load(); err != nil {
+			return fmt.Errorf("load %s: %w", drv.name, err)
+		}
+		d.handler[drv.name] = h
+		fmt.Fprintf(os.Stderr, "c11 build: loaded %s at %.1fs\n", drv.name, time.Since(t0).Seconds())
+	}
+	return nil
+}
+
+func (d *dataset) close() {
+	for _, h := range d.handler {
+		h.Close()
+	}
+	if d.dir != "" {
+		os.RemoveAll(d.dir)
+	}
+}
+
+func clientLoc(ip string) int {
+	for _, c := range clients {
+		if c.ip == ip {
+			return c.loc
+		}
+	}
+	return 1
+}
+
+func (d *dataset) visible(fq string, loc int) [][3]uint64 {
+	res := [][3]uint64{}
+	for _, r := range d.names[fq] {
+		if r.loc == 0 || r.loc == loc {
+			res = append(res, [3]uint64{uint64(r.fam), uint64(r.weight), uint64(r.id)})
+		}
+	}
+	return res
+}
+
+func (d *dataset) idOf(fq string, loc int, fam int, ip net.IP, ttl uint32) int {
+	for _, r := range d.names[fq] {
+		if r.fam == fam && r.ttl == ttl && net.ParseIP(r.ip).Equal(ip) && (r.loc == 0 || r.loc == loc) {
+			return r.id
+		}
+	}
+	return 999999
+}
+
+func (d *dataset) query(driver, qname string, qtype int, mode, client string, max int, dseed uint64) caseJ {
+	c := caseJ{Kind: "e2e", Class: mode + ":" + dns.TypeToString[uint16(qtype)], Max: max, Driver: driver, QName: qname, QType: qtype, Mode: mode,
+		Client: client, DSeed: dseed, KeysAgree: true, Out4: []int{}, Out6: []int{}, Rcode: -1}
+	h := d.handler[driver]
+	req := new(dns.Msg)
+	req.SetQuestion(qname, uint16(qtype))
+	rec := dnstest.NewRecorder(&test.ResponseWriterCustomRemote{RemoteIP: client})
+	ctx := context.Background()
+	if max != 0 {
+		ctx = dnsserver.WithMaxAnswer(ctx, max)
+	} else {
+		c.Max = dnsserver.DefaultMaxAnswer // no setting in the context: handler default
+	}
+	_, err := h.ServeDNSWithRCODE(ctx, rec, req)
+	if err != nil || rec.Msg == nil {
+		c.Note = fmt.Sprintf("no response: %v", err)
+		return c
+	}
+	m := rec.Msg
+	c.Rcode = m.Rcode
+	loc := clientLoc(client)
+	if mode == "addr" {
+		g := groupJ{Name: qname, Max: c.Max, Want4: qtype == 1 || qtype == 255, Want6: qtype == 28 || qtype == 255,
+			Cands: d.visible(qname, loc), Got4: []int{}, Got6: []int{}}
+		for _, rr := range m.Answer {
+			switch x := rr.(type) {
+			case *dns.A:
+				g.Got4 = append(g.Got4, d.idOf(qname, loc, 1, x.A, x.Hdr.Ttl))
+			case *dns.AAAA:
+				g.Got6 = append(g.Got6, d.idOf(qname, loc, 28, x.AAAA, x.Hdr.Ttl))
+			default:
+				g.Got4 = append(g.Got4, 999997)
+			}
+			if rr.Header().Name != qname {
+				g.Got4 = append(g.Got4, 999996)
+			}
+		}
+		c.Groups = []groupJ{g}
+		return c
+	}
+	// additional section: one group per NS/MX target of the answer / authority section
+	var targets []string
+	for _, sec := range [][]dns.RR{m.Answer, m.Ns} {
+		for _, rr := range sec {
+			switch x := rr.(type) {
+			case *dns.NS:
+				targets = append(targets, x.Ns)
+			case *dns.MX:
+				targets = append(targets, x.Mx)
+			}
+		}
+	}
+	idx := map[string]int{}
+	for _, t := range targets {
+		if _, dup := idx[t]; dup {
+			continue
+		}
+		idx[t] = len(c.Groups)
+		c.Groups = append(c.Groups, groupJ{Name: t, Max: 1, Want4: true, Want6: true, Cands: d.visible(t, loc), Got4: []int{}, Got6: []int{}})
+	}
+	for _, rr := range m.Extra {
+		name := rr.Header().Name
+		gi, ok := idx[name]
+		if !ok {
+			// an additional record for a name that is no target
+			c.Groups = append(c.Groups, groupJ{Name: name, Max: 1, Want4: true, Want6: true, Cands: [][3]uint64{}, Got4: []int{999995}, Got6: []int{}})
+			continue
+		}
+		switch x := rr.(type) {
+		case *dns.A:
+			c.Groups[gi].Got4 = append(c.Groups[gi].Got4, d.idOf(name, loc, 1, x.A, x.Hdr.Ttl))
+		case *dns.AAAA:
+			c.Groups[gi].Got6 = append(c.Groups[gi].Got6, d.idOf(name, loc, 28, x.AAAA, x.Hdr.Ttl))
+		default:
+			c.Groups[gi].Got4 = append(c.Groups[gi].Got4, 999997)
+		}
+	}
+	if len(targets) == 0 {
+		c.Note = "no NS/MX target in the response"
+		c.Groups = append(c.Groups, groupJ{Name: "?", Max: 1, Want4: true, Want6: true, Cands: [][3]uint64{}, Got4: []int{999994}, Got6: []int{}})
+	}
+	return c
+}
+
+var drivers = []string{"cdb", "rdb1", "rdb2"}
+
+func emitE2E(a *hlib.Args, e *hlib.Emitter, d *dataset) {
+	thorough := a.Tier == "thorough"
+	k := 0
+	for qi, q := range d.qnames {
+		fq := q + ".example.com."
+		for _, qt := range []int{1, 28, 255} {
+			for max := 0; max <= 8; max++ {
+				// max 0: no setting in the context (handler default 1)
+				if qt == 255 && !thorough && !(max == 0 || max == 1 || max == 3 || max == 8) {
+					continue
+				}
+				for ci, cl := range clients {
+					for di, drv := range drivers {
+						// quick: every backend x client for max 2 (A/AAAA), one rotating combination otherwise
+						all := thorough || (max == 2 && qt != 255)
+						if !all && (ci != (max+qi)%len(clients) || di != (max+qi+qt)%len(drivers)) {
+							continue
+						}
+						e.Emit(d.query(drv, fq, qt, "addr", cl.ip, max, a.Seed))
+						k++
+					}
+				}
+			}
+		}
+	}
+	for _, drv := range drivers {
+		for _, cl := range clients {
+			for _, max := range []int{0, 3} {
+				e.Emit(d.query(drv, "example.com.", int(dns.TypeNS), "addl", cl.ip, max, a.Seed))
+				e.Emit(d.query(drv, "example.com.", int(dns.TypeMX), "addl", cl.ip, max, a.Seed))
+				e.Emit(d.query(drv, "www.sub.example.com.", int(dns.TypeA), "addl", cl.ip, max, a.Seed))
+			}
+		}
+	}
+}
+
+// ---------------------------------------------------------------- chi-square support
+
+func chiStat(ws []uint32, obs []int) (float64, int, int) {
+	S, n := 0.0, 0
+	for i, w := range ws {
+		if w > 0 {
+			S += float64(w)
+			n += obs[i]
+		}
+	}
+	stat, k := 0.0, 0
+	for i, w := range ws {
+		if w > 0 {
+			exp := float64(n) * float64(w) / S
+			stat += (float64(obs[i]) - exp) * (float64(obs[i]) - exp) / exp
+			k++
+		}
+	}
+	return stat, k - 1, n
+}
+
+// one draw at unit level: a fresh Wrs{MaxAnswers:1}, every candidate added, ARecord
+func oneDraw(ws []uint32) int {
+	w := db.Wrs{MaxAnswers: 1}
+	for i, wt := range ws {
+		row := mkRow(1, wt, i)
+		rr, _ := db.ExtractRRFromRow(row, false)
+		_ = w.Add(rr, row)
+	}
+	rrs, err := w.ARecord("x.example.", dns.ClassINET)
+	if err != nil || len(rrs) != 1 {
+		return -1
+	}
+	return idOfAddr(rrs[0].(*dns.A).A.To4())
+}
+
+func runChi(ws []uint32, n int, seed uint64, workers int, via string, d *dataset) caseJ {
+	c := caseJ{Kind: "chi", Class: "chi:" + via, Max: 1, ChiW: ws, ChiN: n, ChiSeed: seed, ChiWorkers: workers, ChiVia: via,
+		KeysAgree: true, Out4: []int{}, Out6: []int{}}
+	// the package's own kind of generator (locked source), seeded for reproducibility
+	lr := db.NewRand()
+	lr.Seed(int64(seed))
+	db.SetRandSourceForVerif(lr)
+	obs := make([]int, len(ws))
+	bad := 0
+	switch via {
+	case "unit":
+		var mu sync.Mutex
+		var wg sync.WaitGroup
+		for g := 0; g < workers; g++ {
+			wg.Add(1)
+			go func() {
+				defer wg.Done()
+				loc := make([]int, len(ws))
+				lb := 0
+				for i := 0; i < n/workers; i++ {
+					if id := oneDraw(ws); id >= 0 && id < len(ws) {
+						loc[id]++
+					} else {
+						lb++
+					}
+				}
+				mu.Lock()
+				for i := range loc {
+					obs[i] += loc[i]
+				}
+				bad += lb
+				mu.Unlock()
+			}()
+		}
+		wg.Wait()
+	case "handler":
+		recs := d.names["wrr.example.com."]
+		c.ChiW = nil
+		var ids []int
+		for _, r := range recs {
+			if r.fam == 1 {
+				c.ChiW = append(c.ChiW, r.weight)
+				ids = append(ids, r.id)
+			}
+		}
+		ws = c.ChiW
+		obs = make([]int, len(ws))
+		for i := 0; i < n; i++ {
+			q := d.query("cdb", "wrr.example.com.", 1, "addr", "9.9.9.9", 1, seed)
+			if len(q.Groups) == 1 && len(q.Groups[0].Got4) == 1 {
+				hit := false
+				for k, id := range ids {
+					if id == q.Groups[0].Got4[0] {
+						obs[k]++
+						hit = true
+					}
+				}
+				if !hit {
+					bad++
+				}
+			} else {
+				bad++
+			}
+		}
+	}
+	c.ChiObs = obs
+	stat, df, tot := chiStat(ws, obs)
+	c.Support = map[string]interface{}{"chi2": math.Round(stat*1000) / 1000, "df": df, "draws": tot, "bad_draws": bad,
+		"weights": ws, "observed": obs, "workers": workers, "via": via,
+		"note": "support only: decides only if chi2 exceeds the p=1e-6 critical value"}
+	if bad > 0 {
+		// a draw that served nothing or an unknown address: make the case fail its spec
+		c.ChiObs = append(c.ChiObs, bad)
+	}
+	return c
+}
+
+func emitChi(a *hlib.Args, e *hlib.Emitter, d *dataset) {
+	scale := 1
+	if a.Tier == "thorough" {
+		scale = 10
+	}
+	e.Emit(runChi([]uint32{1, 2, 3, 4}, 8000*scale, a.Seed+1, 1, "unit", d))
+	e.Emit(runChi([]uint32{5, 1, 0, 1, 1, 100}, 8000*scale, a.Seed+2, 4, "unit", d))
+	e.Emit(runChi(nil, 4000*scale, a.Seed+3, 1, "handler", d))
+}
+
+// ---------------------------------------------------------------- main
+
+func run(a *hlib.Args, e *hlib.Emitter) error {
+	r := hlib.NewRng(a.Seed, 11)
+	var d *dataset
+	getData := func(seed uint64) (*dataset, error) {
+		if d != nil {
+			return d, nil
+		}
+		d = genData(seed, a.Tier)
+		if err := d.build(a.Scratch, seed); err != nil {
+			return nil, err
+		}
+		return d, nil
+	}
+	defer func() {
+		if d != nil {
+			d.close()
+		}
+	}()
+	if a.Replay != "" {
+		cs, err := hlib.ReadReplay(a.Replay)
+		if err != nil {
+			return err
+		}
+		for _, m := range cs {
+			var c caseJ
+			raw, _ := json.Marshal(m)
+			if err := json.Unmarshal(raw, &c); err != nil {
+				return err
+			}
+			switch c.Kind {
+			case "unit":
+				e.Emit(runUnit(r, c.Max, c.Cands, c.Class))
+			case "e2e":
+				ds, err := getData(c.DSeed)
+				if err != nil {
+					return err
+				}
+				db.SetRandSourceForVerif(rand.NewSource(int64(a.Seed)).(rand.Source64))
+				max := c.Max
+				e.Emit(ds.query(c.Driver, c.QName, c.QType, c.Mode, c.Client, max, c.DSeed))
+			case "chi":
+				ds, err := getData(a.Seed)
+				if err != nil {
+					return err
+				}
+				e.Emit(runChi(c.ChiW, c.ChiN, c.ChiSeed, c.ChiWorkers, c.ChiVia, ds))
+			}
+		}
+		return nil
+	}
+	t0 := time.Now()
+	emitUnits(a, e, r)
+	t1 := time.Now()
+	ds, err := getData(a.Seed)
+	if err != nil {
+		return err
+	}
+	t2 := time.Now()
+	db.SetRandSourceForVerif(rand.NewSource(int64(a.Seed)).(rand.Source64))
+	emitE2E(a, e, ds)
+	t3 := time.Now()
+	emitChi(a, e, ds)
+	fmt.Fprintf(os.Stderr, "c11 phases: unit %.1fs, db build %.1fs, e2e %.1fs, chi %.1fs\n",
+		t1.Sub(t0).Seconds(), t2.Sub(t1).Seconds(), t3.Sub(t2).Seconds(), time.Since(t3).Seconds())
+	return nil
+}
+
+func main() {
+	// glog (used by the db package) must not create log files
+	_ = flag.Set("logtostderr", "true")
+	hlib.Main(run)
 }
